@@ -10,7 +10,7 @@ PATTERNS = [
     ("kani::stub", re.compile(r"kani::stub\(\s*([^,\s]+)")),
     ("kani::stub_verified", re.compile(r"kani::stub_verified\(\s*([^)\s]+)")),
     ("kani::assume", re.compile(r"kani::assume\(")),
-    ("assume_specification", re.compile(r"assume_specification\s*(?:<[^>]*>)?\s*\[\s*([^\]]+)\]")),
+    ("assume_specification", re.compile(r"assume_specification\s*(?:<[^>]*>)?\s*\[\s*(.+?)\s*\]\s*\(")),
     ("external_body", re.compile(r"external_body")),
     ("verifier::external", re.compile(r"verifier::external")),
     ("admit", re.compile(r"\badmit\(")),
